@@ -371,13 +371,8 @@ Definition register_projector (w : world) (c : calc) (p : proj) : option calc :=
 
 Definition unregister_projector (w : world) (c : calc) (p : proj) : option calc :=
   let c := c_set_projectors c (set_rm proj_eqb (c_projectors c) p) in
-  match solsys_carrier w (pj_item p) with
-  | CarFail => None
-  | CarOk (Some car) =>
-    let c := c_set_carrier c (ks_rm_entry neqb proj_eqb (c_carrier c) car p) in
-    Some (c_set_carrierless c (set_rm proj_eqb (c_carrierless c) p))
-  | CarOk None => Some (c_set_carrierless c (set_rm proj_eqb (c_carrierless c) p))
-  end.
+  let c := c_set_carrier c (fold_left (fun s k => ks_rm_entry neqb proj_eqb s k p) (map fst (c_carrier c)) (c_carrier c)) in
+  Some (c_set_carrierless c (set_rm proj_eqb (c_carrierless c) p)).
 
 Definition apply_projector (c : calc) (p : proj) (tgts : list (option nat)) : calc :=
   let c := c_set_ptgts c (ks_add_set proj_eqb onat_eqb (c_ptgts c) p tgts) in
